@@ -80,6 +80,10 @@ func randCompose(rng *rand.Rand, n int) cmpCfg {
 		c.FailAt[s-1] = 1
 		if c.Cls[s-1] == "FAIL" || c.Cls[s-1] == "FAILA" {
 			c.FailAt[s-1] = 1 + rng.Intn(c.NCmd[s-1])
+			if rng.Intn(2) == 0 {
+				// (often: the failing command is neither the first nor the last of the task's jobs)
+				c.NCmd[s-1], c.FailAt[s-1] = 3, 2
+			}
 		}
 		c.NVar[s-1], c.HB[s-1], c.HA[s-1] = 1, "none", "none"
 		if rich && !c.Inc[s-1] {
@@ -314,6 +318,7 @@ func ComposeCheck(env *core.Env, rep *core.Report, k int, models ...string) map[
 		bad     string
 		crashed bool
 		overlap string
+		outcome string
 	}
 	out := make([]exec, k)
 	letter := map[int]string{0: "W", 1: "R", 2: "S", 3: "D", 4: "E", 5: "C"}
@@ -415,6 +420,18 @@ func ComposeCheck(env *core.Env, rep *core.Report, k int, models ...string) map[
 			out[i].bad = "Schedule did not return (no sched-exit event); exit status " + fmt.Sprint(res.Exit)
 			return
 		}
+		// C02 read directly off the log: the final statuses of a plain pipeline (nothing included, nothing
+		// cancelled) are the reference outcome - a function of the configuration alone
+		if want := refOutcome(c); want != nil {
+			for _, ev := range evs {
+				if ev["e"] != "done" {
+					continue
+				}
+				if fin, ok := ev["final"].([]string); ok && strings.Join(fin, "") != strings.Join(want, "") {
+					out[i].outcome = fmt.Sprintf("final statuses %v, the reference outcome of this configuration is %v (deps %v, classes %v, commands %v, failing at %v, task-level allow_failure %v, before hooks %v, contexts %v, failing start-ups %v)", fin, want, c.Deps, c.Cls, c.NCmd, c.FailAt, c.TAllow, c.HB, c.Ctx, c.UpFails)
+				}
+			}
+		}
 		// C01 read directly off the log (whatever else the trace specification rejects first): no job
 		// of a stage (hooks included) starts while a job of a stage it depends on has not ended
 		{
@@ -501,6 +518,9 @@ func ComposeCheck(env *core.Env, rep *core.Report, k int, models ...string) map[
 				rep.Add(core.Finding{Prop: "C02", Key: "C02:binary:run-crashed-without-an-outcome", What: o.bad, Detail: o.cfg})
 			}
 			continue
+		}
+		if o.outcome != "" {
+			rep.Add(core.Finding{Prop: "C02", Key: "C02:binary:final-statuses-differ-from-the-reference-outcome", What: o.outcome, Detail: o.cfg})
 		}
 		if o.overlap != "" {
 			rep.Add(core.Finding{Prop: "C01", Key: "C01:binary:job-of-a-dependency-still-running", What: o.overlap, Detail: o.cfg})
@@ -673,4 +693,35 @@ func tail(s string, n int) string {
 		return s[len(s)-n:]
 	}
 	return s
+}
+
+// refOutcome: Exp of Taskctl.tla / Scheduler.tla for a pipeline without an included pipeline and
+// without a condition error (nil otherwise).
+func refOutcome(c cmpCfg) []string {
+	for s := 0; s < c.N; s++ {
+		if c.Gr[s] != 0 || c.Inc[s] || c.Cls[s] == "CERR" {
+			return nil
+		}
+	}
+	exp := make([]string, c.N)
+	for s := 0; s < c.N; s++ { // dependencies have smaller numbers
+		fails := c.Cls[s] == "FAIL" || c.Cls[s] == "FAILA"
+		upOK := c.Ctx[s] == 0 || !c.UpFails[c.Ctx[s]-1]
+		taskFails := !upOK || c.HB[s] == "fail" || (fails && !c.TAllow[s])
+		blocked := false
+		for _, d := range c.Deps[s] {
+			blocked = blocked || exp[d-1] == "E" || exp[d-1] == "C"
+		}
+		switch {
+		case c.Cls[s] == "CFALSE":
+			exp[s] = "S"
+		case blocked:
+			exp[s] = "C"
+		case taskFails && c.Cls[s] != "FAILA":
+			exp[s] = "E"
+		default:
+			exp[s] = "D"
+		}
+	}
+	return exp
 }
